@@ -22,6 +22,7 @@ if TYPE_CHECKING:
 from datamodel_code_generator.imports import Import  # noqa: TC001
 
 escape_characters = str.maketrans({
+    "\u0000": r"\x00",  # Null byte
     "\\": r"\\",
     "'": r"\'",
     "\b": r"\b",
